@@ -172,13 +172,26 @@ class CharSet(object):
         return "{%s}" % "".join(chr(c) if 0x20 < c < 0x7F else "\\x%02x" % c for c in sorted(self.chars))
 
 
+class FnClass(object):
+    """a named crate function `fn(char) -> bool` used as a character predicate"""
+    __slots__ = ("key",)
+
+    def __init__(self, key):
+        self.key = key
+
+    def __repr__(self):
+        return "Fn(%s)" % self.key
+
+
 def to_class(interp, v):
-    """closure (predicate) or literal character set"""
+    """closure (predicate), named predicate function, or literal character set"""
     from .interp import ListV
     if isinstance(v, (Ptr, BoxV)):
         v = interp.load(v)
     if isinstance(v, Clo):
         return v
+    if isinstance(v, FnV) and (v.info.get("local") or (v.info.get("resolved") or {}).get("local")) and interp.prog.has_body(v.key()):
+        return FnClass(v.key())
     if isinstance(v, int) and not isinstance(v, bool):
         return CharSet([v])
     if isinstance(v, tuple) and all(isinstance(x, int) and not isinstance(x, bool) for x in v):
@@ -249,8 +262,17 @@ def w_cut_err(interp, args, info):
     return P("cut_err", [to_parser(interp, args[0])])
 
 
+def _refs(p, out):
+    if isinstance(p, P):
+        if p.kind == "ref":
+            out.add(p.extra)
+        for a in p.args:
+            _refs(a, out)
+
+
 def _parse_next(interp, args, info):
     p = to_parser(interp, args[0])
+    _refs(p, interp.stubbed)       # the analysis answers for these parser functions: their bodies are not entered
     return interp.policy.parse_next(interp, p, args[1], info)
 
 
